@@ -199,7 +199,7 @@ var clauseKeywords = map[string]bool{
 	"func": true, "extern": true, "sort": true, "const": true, "fun": true, "pred": true, "lemma": true,
 	"axiom": true, "type": true, "method": true, "returns": true, "params": true, "variant": true,
 	"induction": true, "assert": true, "assume": true, "unfold": true, "use": true, "set": true,
-	"body": true, "havoc": true, "captured": true,
+	"body": true, "havoc": true, "captured": true, "defines": true,
 }
 
 func (p *parser) parseType() *TypeExpr {
@@ -707,6 +707,12 @@ func (p *parser) parseFuncSpecBody(fs *FuncSpec) {
 		case "captured":
 			p.next()
 			fs.Captured = append(fs.Captured, p.parseClause())
+		case "defines":
+			// definitional clause about the closure value "self": assumed where the closure is created and at its entry
+			p.next()
+			c := p.parseClause()
+			c.Free = true
+			fs.Captured = append(fs.Captured, c)
 		case "ensures":
 			p.next()
 			fs.Ensures = append(fs.Ensures, p.parseClause())
